@@ -85,6 +85,16 @@ pub mod executor;
 pub mod program;
 pub mod query;
 
+/// Re-exports of internal types for the verification harnesses (feature
+/// `verif` only).
+#[cfg(feature = "verif")]
+pub mod verif {
+    pub use crate::engine::computation_graph::{
+        CompressedBackwardEdgeSet, QueryLock,
+        VerifQueryLockManager as QueryLockManager,
+    };
+}
+
 pub use config::Config;
 #[cfg(feature = "default-config")]
 pub use config::DefaultConfig;
